@@ -27,6 +27,11 @@ huge         : value class HUGE -- syntactically valid integers whose unit conve
 paths        : URL path classes (raw space, %20, %2F, '+' ';', escaped + trailing slash, query string) through the
                signal variable, the generic variable, WithEndpointURL and WithURLPath of the HTTP exporters; the
                collectors record the request target as sent on the wire (RequestURI), the model's Wire() decides.
+unparsable   : value class UNPARSABLE of endpoint sources (text that is no URL: "http://[::1", bad port, bad escape, control
+               character, space in the scheme, host:port without scheme; unparsable WithEndpointURL) in every source
+               position of the six exporters: provides nothing -> the NEXT source decides host and path (not the
+               built-in default); model: ProvidesNothing / UnparsableIsUnset; the class next to plain sources is always
+               in the quick sample; mismatch classes unparsable-not-skipped / unparsable-not-skipped-path.
 cross        : metamorphic clause of the batch processors: a configuration of the four variables and
                NormalizeCross(cfg) (ill-formed values without documented meaning -> absent) are both executed,
                queue capacity / batch size / export deadline of both are logged as `Pair` lines and compared
@@ -78,6 +83,10 @@ def obs_class(case, obs, ideal):
         iwho = {x.partition("|")[0] for x in ideal}
         ipaths = {x.partition("|")[2] for x in ideal}
         if who not in iwho:
+            # an unparsable source did not let the next source in precedence order decide (it masked it, or dragged
+            # the setting to the built-in default)
+            if any(s["k"] in UNPARSABLE for s in case["srcs"]) and any(s["k"] in ("url", "host", "hostpath") for s in case["srcs"]):
+                return "unparsable-not-skipped"
             return "who"
         if "//" in path and path.replace("//", "/") in ipaths:
             return "path-double-slash"
@@ -89,6 +98,8 @@ def obs_class(case, obs, ideal):
             return "path-escaped-slash-decoded" if esc_slash else "path-escaping"
         if path + "/" in ipaths:
             return "path-trailing-slash-stripped"
+        if any(s["k"] in UNPARSABLE for s in case["srcs"]):
+            return "unparsable-not-skipped-path"     # the URL path of the next source was lost with the unparsable value
         return "path"
     if o.startswith("?"):
         return "other"
@@ -163,6 +174,19 @@ def pairwise_new_class(act):
     return any(new(i, x) for i, x in srcs) and all(new(i, x) or plain(i, x) for i, x in srcs)
 
 
+UNPARSABLE = ("unparsable", "noscheme", "badurl")     # ProvidesNothing of the model
+
+
+def is_unparsable_class(act):
+    """value class UNPARSABLE next to plain sources: an endpoint source whose text is not a URL in one position, every
+    other source absent or an ordinary well-formed URL / host (invalid high + valid low and the other way round):
+    always part of the quick sample, for all six exporters"""
+    if act["fam"] != "endpoint" or not any(x["k"] in UNPARSABLE for x in act["srcs"]):
+        return False
+    return all(x["k"] in UNPARSABLE + ("absent", "host", "hostpath") or (x["k"] == "url" and x.get("v") in ("", "/o", "/s", "/g"))
+               for x in act["srcs"])
+
+
 def is_path_class(act):
     """endpoint case with a path that needs escaping / is already escaped / carries a query"""
     return act["fam"] == "endpoint" and any(ch in (x.get("v") or "") for x in act["srcs"] for ch in " %+;?")
@@ -178,8 +202,8 @@ def sample_edges(ctx, edges_file, out_file):
             total += 1
             act = json.loads(line)["act"]
             keep = True
-            if any(x["k"] == "huge" for x in act["srcs"]) or is_path_class(act):
-                keep = True      # value class HUGE and the URL path classes: always complete
+            if any(x["k"] == "huge" for x in act["srcs"]) or is_path_class(act) or is_unparsable_class(act):
+                keep = True      # value classes HUGE / UNPARSABLE and the URL path classes: always complete
             elif act["comp"] not in ("sdk", "bsp", "blrp"):
                 opt = act["srcs"][0]["k"]
                 illformed_opt = opt in ("badurl", "badenum", "unknown", "neg", "zero")
